@@ -41,6 +41,7 @@ class Job:
                       "kani": {"harnesses": 0, "verified": 0, "cbmc_s": 0.0, "wall_s": 0.0}}
         self.reg = emitters()
         self.extra_kani_flags = []
+        self.needs_fmt = any("Debug" in p.focus for p in programs)
         self.t0 = time.time()
 
     # -----------------------------------------------------------------------------
@@ -114,6 +115,8 @@ pub fn replay<Z9: crate::src::Src>(s: &mut Z9, out: &mut Vec<(String, String, St
     # Verus
     def verus_module(self, P):
         """-> (module text, expected obligations {fn suffix: (name, contract)}) or (None, reason)"""
+        if P.tags.get("no_verus"):
+            return None, P.tags["no_verus"]
         impls = self.fam.impls[P.pid]
         log = []
         us = self.units[P.pid]
@@ -140,6 +143,8 @@ pub fn replay<Z9: crate::src::Src>(s: &mut Z9, out: &mut Vec<(String, String, St
             focus_traits |= set(getattr(self.reg[u.trait], "COVERS", []))
         body = []
         body.append(P.tags.get("verus_pre_items", ""))
+        if "Debug" in P.focus:
+            body.append("broadcast use {crate::fmt_ax::axiom_empty_struct_is_write_str, crate::fmt_ax::axiom_empty_tuple_is_write_str};")
         body.append(P.typedef(False))
         log.append("dropped: `use educe::Educe`, derive + inert #[educe(..)] helper attributes; fields made pub")
         for im in impls:
@@ -193,7 +198,7 @@ pub fn replay<Z9: crate::src::Src>(s: &mut Z9, out: &mut Vec<(String, String, St
     def _verus_file(self, vdir, name, pids, mods):
         path = os.path.join(vdir, name + ".rs")
         with open(path, "w") as f:
-            f.write(prelude.VERUS_HEAD + prelude.M_VERUS + getattr(self, "verus_extra_prelude", "") + "\n".join(mods[p] for p in pids) + prelude.VERUS_TAIL)
+            f.write(prelude.VERUS_HEAD + prelude.M_VERUS + (prelude.VERUS_FMT if self.needs_fmt else "") + "\n".join(mods[p] for p in pids) + prelude.VERUS_TAIL)
         return path
 
     def _run_one_verus(self, vdir, name, pids, mods):
